@@ -106,6 +106,15 @@ def _dispatch(ex, st, f, args, kwargs, node):
             yield st, V("bool", z3.Not(z3.And(Py.is_obj(box(a)), Py.cls(box(a)) == 7)))
         else:
             yield st, S.mk_bool(True)
+    elif k == "specident" and f.val == "is_lib":
+        a = args[0]
+        nm = z3.simplify(args[1].t) if isinstance(args[1], V) and args[1].ty == "str" else None
+        if nm is None or not z3.is_string_value(nm) or nm.as_string() not in models.CLSID:
+            raise _U("is_lib needs a literal class name from the model's class table")
+        if isinstance(a, V) and a.ty in ("py", "obj"):
+            yield st, V("bool", z3.And(Py.is_obj(box(a)), Py.cls(box(a)) == models.CLSID[nm.as_string()]))
+        else:
+            yield st, S.mk_bool(False)
     elif k == "specident" and f.val == "set_add":
         a = ex.narrow(st, args[0])
         x = box(args[1])
@@ -142,8 +151,23 @@ def _dispatch(ex, st, f, args, kwargs, node):
         yield from datamethods.call(ex, st, base, attr, recv, args, kwargs, node)
     elif k == "class":
         yield from construct(ex, st, f.val, args, kwargs, node)
-    elif k == "type":
-        yield from builtin(ex, st, f.val, args, kwargs, node)
+    elif k in ("type", "exttype"):
+        if f.val == "datetime.date" and len(args) == 3 and not kwargs and all(
+                isinstance(a, V) and a.ty == "int" and z3.is_int_value(z3.simplify(a.t)) for a in args):
+            # date(y, m, d) on literals (module constants such as DAYS_SHIFT): evaluated by the library itself
+            import datetime as _dt
+            try:
+                d = _dt.date(*[z3.simplify(a.t).as_long() for a in args])
+            except ValueError:
+                yield st, _R("ValueError", "date()")
+                return
+            eng.assumptions_used.add("datetime.date(<literals>).toordinal() evaluated by CPython's datetime at verification time")
+            yield st, Const("libdate", d)
+        elif eng.contracts.get_external(f.val, ex.fr.behavior) is not None:
+            from . import externals
+            yield from externals.call(ex, st, f.val, args, kwargs, node)     # a library class with an assumed constructor contract
+        else:
+            yield from builtin(ex, st, f.val, args, kwargs, node)
     elif k == "closure":
         yield from inline_closure(ex, st, f.val, args, kwargs, node)
     elif k == "constdictmethod":
@@ -165,6 +189,8 @@ def _dispatch(ex, st, f, args, kwargs, node):
             if st is None:
                 return
         # no other entries (object invariant of the shape)
+    elif k == "libdate.toordinal":
+        yield st, S.mk_int(f.val.toordinal())
     elif k == "hexdigest":
         alg, data = f.val
         eng.used_externals.add("hashlib.new(...).hexdigest")
